@@ -226,6 +226,22 @@ func SegOf(t *rapid.T, n int, sofar int, kinds []string) Seg {
 	return s
 }
 
+// EdgeRecipe draws data whose only repeat lies exactly at the edge of a
+// dictionary of dictCap bytes: random bytes, then a copy of the bytes that
+// lie dictCap+d back (d in -3..3; for d > 0 the repeat is just out of reach and
+// must NOT be coded as a match), then a short tail. With extra = 0 the copy
+// refers to the very first bytes of the stream.
+func EdgeRecipe(t *rapid.T, dictCap int) Recipe {
+	d := rapid.IntRange(-3, 3).Draw(t, "edge_d")
+	extra := rapid.SampledFrom([]int{0, 0, 0, 1, 2, 3, 100}).Draw(t, "edge_extra")
+	l := rapid.SampledFrom([]int{4, 5, 8, 40, 273, 300}).Draw(t, "edge_len")
+	return Recipe{
+		{Kind: "random", Len: dictCap + d + extra, Seed: rapid.Uint64().Draw(t, "edge_seed")},
+		{Kind: "copyback", Dist: dictCap + d, Len: l},
+		{Kind: "text", K: 4, Len: rapid.IntRange(0, 200).Draw(t, "edge_tail"), Seed: 5},
+	}
+}
+
 // AllKinds lists the segment kinds.
 var AllKinds = []string{"zeros", "run", "random", "text", "counter", "copyback"}
 
